@@ -12,11 +12,27 @@ from pyvc.lib import numpy_ as np
 from pyvc.lib.shapely_ import STRtreeModel
 
 
+class Outline:
+    """polygon.exterior (.coords): the outline of one polygon, as a token"""
+    _pyvc_model_class = True
+
+    def __init__(self, poly):
+        self.poly = poly
+
+    @property
+    def coords(self):
+        return self
+
+
 class AbstractPoly:
     _pyvc_model_class = True
 
     def __init__(self, term, n):
         self.term, self.n = term, n
+
+    @property
+    def exterior(self):
+        return Outline(self)
 
     def _is(self, other):
         return False if other is None else self is other
@@ -72,7 +88,18 @@ def _strtree(it, a):
 
 def _mask(it, a):
     polys = abstract_polygons(a['self'])
-    return np.NDArray(polys.shape, lambda i: mk_bool(z3.Not(polys.hole(zint(i[0])))), np.BOOL)
+    if not hasattr(polys, '_mask_array'):       # cached_property: the same array object on every access
+        polys._mask_array = np.NDArray(polys.shape, lambda i: mk_bool(z3.Not(polys.hole(zint(i[0])))), np.BOOL)
+    return polys._mask_array
+
+
+def _face_centres(it, a):
+    """(size, 2) array: row n = the centre of cell n (verified by C02 face_centres scenarios)."""
+    from pyvc.api import sym_array
+    polys = abstract_polygons(a['self'])
+    if not hasattr(polys, '_centres'):
+        polys._centres = sym_array(core.ctx(), 'centre', (polys.shape[0], 2), 'floatnan')
+    return polys._centres
 
 
 CONTRACTS = [
@@ -80,4 +107,11 @@ CONTRACTS = [
     Contract('emsarray.conventions._base', 'Convention.strtree', post=_strtree, verified_by='C02 (STRtree is built over the full polygon array)'),
     Contract('emsarray.conventions._base', 'Convention.mask', post=_mask, verified_by='C06 (mask[n] <=> polygons[n] is not None)'),
 ]
+FACE_CENTRES = {
+    name: Contract(mod, name_ + '.face_centres', post=_face_centres, verified_by='C02 face_centres')
+    for name, (mod, name_) in {
+        'Convention': ('emsarray.conventions._base', 'Convention'), 'CFGrid1D': ('emsarray.conventions.grid', 'CFGrid1D'),
+        'CFGrid2D': ('emsarray.conventions.grid', 'CFGrid2D'), 'ArakawaC': ('emsarray.conventions.arakawa_c', 'ArakawaC'),
+        'UGrid': ('emsarray.conventions.ugrid', 'UGrid')}.items()
+}
 POLY_KEYS = [c.key for c in CONTRACTS]
